@@ -202,4 +202,34 @@ theorem mem_run_iff {o : Path → Orders} {old new : Tree} {cs : List Change} {d
   · rintro ⟨c, frm, to, hc, hfrm, hto, hd⟩
     exact ⟨c, hc, by simp only [fileDiags, hto, hfrm]; exact hd⟩
 
+/-! ### from the tree diff -/
+
+/-- The diff is a diff of these two trees: the old name of every entry is a (compiling) file of
+the old tree, the new name — if any — a (compiling) file of the new tree. This is the input
+domain of the property ("two consecutive committed versions"), not a restriction. -/
+def Snapshot (old new : Tree) (diff : List DiffEntry) : Prop :=
+  ∀ e ∈ diff, (lookupModule old e.src).isSome = true ∧
+    ∀ d, e.dst = some d → (lookupModule new d).isSome = true
+
+theorem changeOf_file (e : DiffEntry) : (changeOf e).file = e.src := by
+  unfold changeOf; split
+  · split <;> rfl
+  · rfl
+
+/-- On real inputs no compile of the loop can fail: renames are deletions of the old path. -/
+theorem noAbort_of_snapshot {old new : Tree} {diff : List DiffEntry} (h : Snapshot old new diff) :
+    NoAbort old new (diff.map changeOf) := by
+  intro c hc
+  obtain ⟨e, he, rfl⟩ := List.mem_map.1 hc
+  obtain ⟨hsrc, hdst⟩ := h e he
+  refine ⟨?_, by rw [changeOf_file]; exact hsrc⟩
+  unfold changeOf toModule
+  cases hd : e.dst with
+  | none => rfl
+  | some d =>
+    by_cases hds : d = e.src
+    · simp only [hds, if_true]
+      exact hds ▸ hdst d hd
+    · simp [hds]
+
 end ThriftVerif.Break
